@@ -243,8 +243,23 @@ def template_polygon(draw, nk="int", cw=False):
 
 
 @st.composite
+def fillet_curve(draw, nk, center, rlo, rhi, cw=False):
+    """corner A-B-C closed by the quadratic arc C -> A whose control point is
+    B again: a simple closed curve with two *distinct control points of equal
+    value* (the vertex B and the arc's control point), tangent corners at A
+    and C.  Everything that enumerates control points by value instead of by
+    identity goes wrong on it."""
+    tri = draw(star_curve(nk, center, rlo, rhi, (3, 3), (1,), False))
+    a, b, c = tri[0][0], tri[1][0], tri[2][0]
+    curve = [[a, b], [b, c], [c, (b[0], b[1]), a]]
+    return rg.curve_reverse(curve) if cw else curve
+
+
+@st.composite
 def simple_curve(draw, nk="int", degrees=(1,), center=(0.0, 0.0), rlo=6.0, rhi=14.0,
                  cw=False, templates=True, nseg=(3, 7)):
+    if 2 in tuple(degrees) and nseg[0] <= 3 and draw(st.integers(0, 7)) == 0:
+        return draw(fillet_curve(nk, center, rlo, rhi, cw))
     if templates and tuple(degrees) == (1,) and center == (0.0, 0.0) and draw(st.integers(0, 3)) == 0:
         return draw(template_polygon(nk, cw))
     return draw(star_curve(nk, center, rlo, rhi, nseg, degrees, cw))
